@@ -238,6 +238,20 @@ func F2(thorough bool) []*Program {
 			func() Prov { p := fn("NewT1", nil, []string{"*T1"}, false); p.Bind = "I0"; return p }(),
 			fn("NewT0", []string{"*T1", "I0"}, []string{"*T0"}, false),
 		}}}})
+	// two distinct types with the same name from packages with the same name
+	add(&Program{Desc: "same-named types of same-named packages, both supplied", Types: typeNames(1),
+		ExtraImports: []string{`htemplate "html/template"`, `ttemplate "text/template"`}, Decls: []Decl{{
+			Name: "InitP", Request: "*T0", Provs: []Prov{
+				fn("NewTT", nil, []string{"*ttemplate.Template"}, false),
+				fn("NewHT", nil, []string{"*htemplate.Template"}, false),
+				fn("NewT0", []string{"*ttemplate.Template", "*htemplate.Template"}, []string{"*T0"}, false),
+			}}}})
+	add(&Program{Desc: "same-named types of same-named packages, one supplied, one a parameter", Types: typeNames(1),
+		ExtraImports: []string{`htemplate "html/template"`, `ttemplate "text/template"`}, Decls: []Decl{{
+			Name: "InitP", Request: "*T0", Provs: []Prov{
+				fn("NewTT", nil, []string{"*ttemplate.Template"}, false),
+				fn("NewT0", []string{"*ttemplate.Template", "*htemplate.Template"}, []string{"*T0"}, false),
+			}}}})
 	// Bind written around Async
 	add(&Program{Desc: "bind-outside-async", Types: typeNames(3), Ifaces: map[string]string{"I0": "T1"}, Decls: []Decl{{
 		Name: "InitP", Request: "*T0", Provs: []Prov{
@@ -608,6 +622,16 @@ func FN() []*Program {
 	add("type named like a predeclared identifier suffix", []string{"Int", "String", "App"}, nil, nil,
 		named("InitApp", "App", "App:Int,String", "Int:", "String:"),
 		named("InitApp2", "App", "App:Int,String", "Int:", "String:"))
+	// the multi-file programs again with one generator invocation per file (the earlier
+	// file's output is on disk, as a generated file, when the later file is processed)
+	for _, p := range append([]*Program{}, out...) {
+		if len(p.Files) > 1 {
+			cp := *p
+			cp.SeparateRuns = true
+			cp.Desc += ", one invocation per file"
+			out = append(out, &cp)
+		}
+	}
 	return out
 }
 
@@ -737,6 +761,13 @@ func FD() []*Program {
 		Decls: []Decl{named("app", "App", "App:Db", "Db:"), named("InitDb", "Db", "Db:")}})
 	out = append(out, &Program{Family: "FD", Desc: "two files, second needs first's injector name", Types: []string{"App", "Server", "Db"}, Files: [][]int{{0}, {1}},
 		Decls: []Decl{named("server", "Server", "Server:Db", "Db:"), named("InitApp", "App", "App:Db,Server", "Db:", "Server:Db")}})
+	// three declaration files (k.go, k2.go, k3.go): single-file invocations next to the
+	// leftovers of the siblings' outputs
+	out = append(out, &Program{Family: "FD", Desc: "three files, one declaration each", Types: []string{"App", "Server", "Db", "Cache", "Mailer"}, Files: [][]int{{0}, {1}, {2}},
+		Decls: []Decl{
+			named("InitServer", "Server", "Server:Db", "Db:"),
+			named("InitCache", "Cache", "Cache:Db", "Db:!a"),
+			named("InitMailer", "Mailer", "Mailer:Db,Cache", "Db:!a", "Cache:Db!a")}})
 	for _, p := range F2(false) {
 		if strings.Contains(p.Desc, "async=11") || strings.Contains(p.Desc, "two ") {
 			out = append(out, p)
